@@ -127,3 +127,21 @@ def norm_stmt(node: ast.AST) -> str:
         return " ".join(ast.unparse(node).split())[:160]
     except Exception:  # pragma: no cover
         return type(node).__name__
+
+
+def share_rule(rep, model, rule_fn, new_rule: str, text: str, only_rules=None):
+    """Run a rule of another property and record its obligations under ``new_rule`` of this one
+    (several properties rest on the same structural fact; each check must catch a break of it on its own)."""
+    from ..report import Report
+    sub = Report(rep.prop_id, rep.tier, rep.src_root, quiet=True, write=False)
+    rule_fn(model, sub)
+    rep.rule(new_rule, text)
+    for o in sub.obligations:
+        if only_rules is not None and o["rule"] not in only_rules:
+            continue
+        o = dict(o)
+        o["note"] = (o.get("note", "") + f" [shared rule {o['rule']}]").strip()
+        o["rule"] = new_rule
+        rep.obligations.append(o)
+    for fl in sub.floors:
+        rep.floors.append(fl)
